@@ -16,7 +16,7 @@ THEOREMS = {
             'C06.merge_slice_minimal', 'C06.merge_time_minimal', 'C06.merge_vector_minimal',
             'C06.convert_canonical'],
     'C13': ['C13.putKey_other', 'C13.putKey_self', 'C13.foldl_putKey_key', 'C13.insertWith_key',
-            'C13.filterMeta_key'],
+            'C13.filterMeta_key', 'C13.merge_factorises', 'C13.subset_factorises'],
 }
 
 TRUSTED = [
